@@ -24,13 +24,14 @@ class C09Plan(Plan):
     ]
 
     uses_pristine = True
-    PRISTINE_EVERY = 20
+    PRISTINE_EVERY = 12
     SESSION_EVERY = 100
     SESSION_LEN = 80
     # the unrelated earlier work of a session is simplification-heavy (that is where process-global
     # bookkeeping -- step budgets, memo tables, registries -- would be touched)
     SESSION_BASE = {
         "n_steps": (8, 20), "n_nodes": (8, 30), "early_prob": [0.5, 0.8], "ovf_prob": [0.0, 0.03, 0.1],
+        "twin_prob": [0.2, 0.5], "sweep_prob": [0.1, 0.3],
         "weights": {
             "at": 3, "at_num": 1, "mk_partial": 4, "mk_derivative": 1.5, "mk_differential": 3,
             "mk_located": 1, "pat": 2, "dat": 1, "comp": 3, "compat": 1, "lcomp": 1, "asx": 6,
